@@ -57,6 +57,7 @@ mutual
     | root r => simp only [transposeOp, denote]; exact sumN_congr _ _ _ (fun l _ => mul_comm _ _)
     | lowRankRoot r => simp only [transposeOp, denote]; exact sumN_congr _ _ _ (fun l _ => mul_comm _ _)
     | chol r => simp only [transposeOp, denote]; exact sumN_congr _ _ _ (fun l _ => mul_comm _ _)
+    | cholU r => simp only [transposeOp, denote]; exact sumN_congr _ _ _ (fun l _ => mul_comm _ _)
     | kron a b =>
       have hb := shape_transpose b
       simp only [transposeOp, denote, hb.1, hb.2, transpose_refines a, transpose_refines b]
